@@ -254,6 +254,9 @@ theorem cpr_formula (st : CPR.State K) (mkS : CRS K → Vec K → Vec K) (Pf : V
     rw [this]
     simp
 
+-- non-vacuity: the scatter matrix of the 4×4 example (`block_size = 2`) is well formed
+example : (initScalar C18Ex.Ac 2 0).Scatter.WF := by decide +kernel
+
 /-- **the pressure matrix is the weighting of `A` by the weights stored in `Fpp`** (scalar input, `block_size = B`,
 rows with strictly increasing columns, `N = q·B` active rows): `App(ip, jp) = Σ_{i<B} w_i · A(ip·B + i, jp·B)`,
 where `w = Fpp(ip, ip·B .. ip·B + B)`. -/
@@ -343,6 +346,18 @@ theorem cpr_partial_update_noop (A : CRS K) (hs : A.sortedb = true) (B act : Nat
     (partialUpdateScalar (initScalar A B act) A B act upd).apply mkS Pf f = (initScalar A B act).apply mkS Pf f := by
   have h := partialUpdateScalar_same A hs B act hB upd
   exact ⟨h, by rw [h]⟩
+
+/-- the same for `B × B` block input -/
+theorem cpr_partial_update_noop_block (Ab : CRS (Blk K)) (hs : Ab.sortedb = true) (B act : Nat) (hB : 0 < B)
+    (upd : Bool) (mkS : CRS K → Vec K → Vec K) (Pf : Vec K → Vec K) (f : Vec K) :
+    partialUpdateBlock (initBlock Ab B act) Ab B act upd = initBlock Ab B act ∧
+    (partialUpdateBlock (initBlock Ab B act) Ab B act upd).apply mkS Pf f = (initBlock Ab B act).apply mkS Pf f := by
+  have h := partialUpdateBlock_same Ab hs B act hB upd
+  exact ⟨h, by rw [h]⟩
+
+-- non-vacuity: the sorted 4×4 example above (`Ac`), resp. the 3×3 block example below (`Abk`)
+example : partialUpdateScalar (initScalar C18Ex.Ac 2 0) C18Ex.Ac 2 0 true = initScalar C18Ex.Ac 2 0 :=
+  (cpr_partial_update_noop C18Ex.Ac C18Ex.Ac_ok.1 2 0 (by decide) true (fun _ f => f) (fun r => r) #[]).1
 
 /-- **scalar input with `block_size = B` and `B × B` block input are treated identically**: for a block matrix with
 sorted block rows, the block constructor (fixed code 912e27f) and the scalar constructor on the expanded matrix
